@@ -70,7 +70,8 @@ func drawC06(t *rapid.T, x *X) *Case {
 	k := 1 + gspec.U(t, 7, "optcombo") // at least one option on
 	c.Opts.Memoize = k&1 != 0
 	c.Opts.Stats = k&2 != 0
-	c.Opts.Debug = k&4 != 0 && gspec.U(t, 3, "debugrare") == 0
+	// (Debug writes a trace: rare alone, every other time together with Memoize)
+	c.Opts.Debug = k&4 != 0 && (gspec.U(t, 3, "debugrare") == 0 || (k&1 != 0 && gspec.U(t, 2, "debugmemo") == 0))
 	if !c.Opts.Memoize && !c.Opts.Stats && !c.Opts.Debug {
 		c.Opts.Memoize = true
 	}
@@ -183,9 +184,9 @@ func checkC06(x *X, c *Case, strict bool) *Outcome {
 			o.Nontrivial = o.Nontrivial || ref.Stats.LRGrowth > 0
 		} else if c.Opts.Memoize {
 			// work bound and "evaluated at most once"
+			// (the bound holds under every combination of the options: Debug stays as drawn)
 			mc := *c
 			mc.Opts.Stats = true
-			mc.Opts.Debug = false
 			rm, ctxm := runReal(x, pk, &mc, safetyBudget(ref))
 			rs, _ := runReal(x, pk, &statsOnly, safetyBudget(ref))
 			o.Evals += 2
@@ -237,6 +238,7 @@ func drawC16(t *rapid.T, x *X) *Case {
 	c.Plan = drawPlan(t, x.G.Spec, 2, true, false)
 	c.Opts.Memoize = gspec.U(t, 3, "memo") == 0
 	c.Opts.Stats = gspec.U(t, 2, "stats") == 0
+	c.Opts.WarmStats = c.Opts.Stats && gspec.U(t, 5, "warmstats") == 0
 	c.Opts.Debug = gspec.U(t, 12, "debug") == 0
 	c.Opts.AllowInvalid = gspec.U(t, 4, "allowinv") == 0
 	c.Aux = map[string]int{"mode": gspec.U(t, 8, "budgetmode"), "frac": gspec.U(t, 100, "budgetfrac")}
@@ -329,6 +331,26 @@ func checkC16(x *X, c *Case, strict bool) *Outcome {
 		if ex := memoFinding(x, refU, strict); memo && ex != "" {
 			o.Excluded = ex
 			return o
+		}
+		if cc.Opts.WarmStats && cc.Opts.Stats {
+			// A Stats value that an earlier parse has used: the count goes on from there, so the
+			// budget is only an upper bound on what this parse may evaluate (never more than n
+			// expressions, hence never more than n code-block events); nothing else is claimed.
+			b := []uint64{1, 10, 100, 1000, 5000, 3, 50, 500}[mode%8]
+			cc.Opts.MaxExpr = b
+			resp, ctx := runReal(x, pk, &cc, 0)
+			o.Evals++
+			o.Tags = append(o.Tags, "warm_stats")
+			if resp.Panicked {
+				o.Viol = viol(pk, &cc, "panic_escapes", fmt.Sprintf("a panic escaped Parse: %v", resp.PanicVal), "", describeResp(resp))
+				return o
+			}
+			if uint64(len(ctx.Events)) > b {
+				o.Viol = viol(pk, &cc, "budget_exceeded", fmt.Sprintf("MaxExpressions(%d) with a Stats value that already counts %d: %d code blocks ran", b, resp.WarmExprCnt, len(ctx.Events)), "", describeResp(resp))
+				return o
+			}
+			o.Nontrivial = o.Nontrivial || resp.WarmExprCnt > 0
+			continue
 		}
 		var n uint64 // expressions the unbounded parse needs under these options
 		var rU *vrt.Response
